@@ -79,3 +79,35 @@ def declare(reg):
         is_async=True,
         props=["C01"],
     )
+
+    # ---- Authenticated.do_expunge (C06: the 'pretend idling' flag is always restored; C05/C15 f: UID restriction) -------
+    reg.contract(C, "Authenticated.unceremonious_bye", params={"self": "ref:Authenticated", "msg": "str"}, trusted=True, yields=True,
+                 modifies=["ClientProxy.g_out"], note="assumed: sends BYE and closes; touches no mailbox state")
+    reg.contract(C, "Authenticated.send_pending_notifications", params={"self": "ref:Authenticated"}, trusted=True, yields=True,
+                 modifies=["self.pending_notifications", "ClientProxy.g_out"], note="same body as BaseClientHandler.send_pending_notifications (verified there)")
+    MB = "some(self.mbox)"
+    reg.contract(
+        C, "Authenticated.do_expunge",
+        params={"self": "ref:Authenticated", "cmd": "ref:IMAPClientCommand"},
+        requires={
+            # what the management task's resolution guarantees (msg_set_to_msg_seq_set: positions of existing messages)
+            "resolved-in-range": f"is_none(self.mbox) or is_none(cmd.msg_set_as_set) or forall(lambda x: implies(x in some(cmd.msg_set_as_set), 1 <= x and x <= len({MB}.uids)))",
+            "uids-ascending": f"is_none(self.mbox) or asc({MB}.uids)",
+            "disk-has-keys": f"is_none(self.mbox) or subset(elems({MB}.msg_keys), {MB}.mailbox.g_keys)",
+        },
+        ensures={"idling-restored": "self.idling == old(self.idling)"},
+        raises={"No": None, "Bad": None},
+        exc_ensures={"idling-restored": "self.idling == old(self.idling)"},
+        modifies=["self.idling", "self.pending_notifications", "ClientProxy.g_out", "*.pending_notifications", "IMAPClientCommand.completed",
+                  "Mailbox.msg_keys", "Mailbox.uids", "Mailbox.num_msgs", "Mailbox.num_recent", "Mailbox._msg_key_to_idx", "Mailbox._uid_to_idx", "Mailbox.sequences",
+                  "Mailbox.optional_resync", "MH.g_keys", "MH.g_seqs", "Mailbox.g_db_exists", "Mailbox.g_db_uid_vv", "Mailbox.g_db_next_uid", "Mailbox.g_db_uids",
+                  "Mailbox.g_db_msg_keys", "Mailbox.g_db_subscribed", "Mailbox.g_db_num_msgs"],
+        ghost={"call_asserts": {"expunge": {
+            # C05 / C15 (f): UID EXPUNGE restricts to exactly the UIDs of the resolved positions; plain EXPUNGE passes no restriction
+            "uid-form-passes-the-resolved-uids": f"implies(cmd.uid_command, not is_none(uid_msg_set) and forall(lambda u: (u in some(uid_msg_set)) == "
+                                                 f"exists(lambda x: (not is_none(cmd.msg_set_as_set)) and x in some(cmd.msg_set_as_set) and {MB}.uids[x - 1] == u)))",
+            "plain-form-unrestricted": "implies(not cmd.uid_command, is_none(uid_msg_set))",
+        }}},
+        is_async=True,
+        props=["C06", "C05", "C15"],
+    )
